@@ -104,6 +104,76 @@ def dpseg_cpp_table():
     return decl
 
 
+def skip_condition(path, funcname):
+    """the condition on the value `v` under which the command leaves an option out: the `if ... : continue`
+    at the head of the loop over vars(args).items(), minus its `k in excluded_args` disjunct"""
+    import ast
+    tree = ast.parse(open(path).read())
+    fn = [n for n in ast.walk(tree) if isinstance(n, ast.FunctionDef) and n.name == funcname]
+    if len(fn) != 1:
+        raise TranslationError('%s: function %s not found' % (path, funcname))
+    loops = [n for n in ast.walk(fn[0]) if isinstance(n, ast.For) and isinstance(n.target, ast.Tuple)
+             and [getattr(e, 'id', None) for e in n.target.elts] == ['k', 'v']]
+    if len(loops) != 1:
+        raise TranslationError('%s: expected one loop "for k, v in vars(args).items()" in %s' % (path, funcname))
+    first = loops[0].body[0]
+    if not (isinstance(first, ast.If) and len(first.body) == 1 and isinstance(first.body[0], ast.Continue) and not first.orelse):
+        raise TranslationError('%s: the loop of %s does not start with "if ...: continue"' % (path, funcname))
+
+    def const(n):
+        if isinstance(n, ast.Constant):
+            v = n.value
+            if v is None:
+                return 'PNone'
+            if v is True or v is False:
+                return 'PBool %s' % ('true' if v else 'false')
+            if isinstance(v, int):
+                return 'PNum (%d # 1)%%Q' % v
+            if isinstance(v, float) and v == int(v):
+                return 'PNum (%d # 1)%%Q' % int(v)
+            if isinstance(v, str):
+                return 'PStr %s' % coq_str(v)
+        raise TranslationError('%s: constant not understood in the skip condition: %s' % (path, ast.dump(n)))
+
+    def is_v(n):
+        return isinstance(n, ast.Name) and n.id == 'v'
+
+    def tr(n):
+        if isinstance(n, ast.BoolOp):
+            parts = [tr(x) for x in n.values]
+            parts = [x for x in parts if x is not None]
+            if not parts:
+                return None
+            op = 'CAnd' if isinstance(n.op, ast.And) else 'COr'
+            out = parts[0]
+            for x in parts[1:]:
+                out = '(%s %s %s)' % (op, out, x)
+            return out
+        if isinstance(n, ast.UnaryOp) and isinstance(n.op, ast.Not):
+            return '(CNot %s)' % tr(n.operand)
+        if isinstance(n, ast.Compare) and len(n.ops) == 1:
+            left, op, right = n.left, n.ops[0], n.comparators[0]
+            if isinstance(left, ast.Name) and left.id == 'k' and isinstance(op, ast.In) and isinstance(right, ast.Name) and right.id == 'excluded_args':
+                return None          # the Python-only arguments, not a condition on the value
+            if is_v(left):
+                if isinstance(op, ast.In) and isinstance(right, (ast.Tuple, ast.List)):
+                    return '(CIn [%s])' % '; '.join(const(e) for e in right.elts)
+                table = {ast.Eq: 'CEq', ast.NotEq: 'CNe', ast.Is: 'CIs', ast.IsNot: 'CIsNot'}
+                for t, name in table.items():
+                    if isinstance(op, t):
+                        return '(%s (%s))' % (name, const(right))
+        raise TranslationError('%s: skip condition of %s not understood: %s' % (path, funcname, ast.unparse(n)))
+
+    test = first.test
+    if isinstance(test, ast.BoolOp) and isinstance(test.op, ast.Or) and tr(test.values[0]) is None:
+        c = tr(ast.BoolOp(op=ast.Or(), values=test.values[1:])) if len(test.values) > 2 else tr(test.values[1])
+    else:
+        raise TranslationError('%s: the skip condition of %s is not "k in excluded_args or ..."' % (path, funcname))
+    if c is None:
+        raise TranslationError('%s: no condition on the value in %s' % (path, funcname))
+    return c, ast.unparse(test)
+
+
 def coq_str(s):
     return '[' + '; '.join('%d%%N' % ord(c) for c in s) + ']'
 
@@ -123,7 +193,15 @@ def main():
             '(* kind codes: 0 bool, 1 int, 2 float, 3 str / C++: 0 none, 1 uint, 2 float, 3 str, 4 bool *)',
             'Definition dp_py_rows : list (list N * N) := [%s].' % '; '.join('(%s, %d%%N)' % (coq_str(n), {'bool': 0, 'int': 1, 'float': 2, 'str': 3}[k]) for n, k in dpp),
             'Definition dp_cpp_rows : list (list N * N) := [%s].' % '; '.join('(%s, %d%%N)' % (coq_str(n), {'none': 0, 'uint': 1, 'float': 2, 'str': 3, 'bool': 4}[k]) for n, k in dpc),
-            '']
+            ]
+    agskip, agsrc = skip_condition(os.path.join(REPO, 'wordseg/algos/ag.py'), '_command_line_arguments')
+    dpskip, dpsrc = skip_condition(os.path.join(REPO, 'wordseg/algos/dpseg.py'), 'main')
+    text += ['From Coq Require Import QArith.', 'From WS Require Import Cli.Options.',
+             '(* ag.py: if %s: continue *)' % agsrc.replace('*)', '* )'),
+             'Definition ag_skip_cond : cond := %s.' % agskip,
+             '(* dpseg.py: if %s: continue *)' % dpsrc.replace('*)', '* )'),
+             'Definition dp_skip_cond : cond := %s.' % dpskip,
+             '']
     text = '\n'.join(text)
     os.makedirs(os.path.dirname(OUT), exist_ok=True)
     if not os.path.exists(OUT) or open(OUT).read() != text:
